@@ -297,8 +297,12 @@ func (ba *casBlobAccess) Put(ctx context.Context, digest digest.Digest, b buffer
 		}
 
 		if err := b.IntoWriter(encoder); err != nil {
+			// Abort the upload. Finishing it would let the
+			// server store the object if the data that was
+			// sent so far happens to be complete.
+			cancel()
 			encoder.Close()
-			byteStreamWriter.Close()
+			client.CloseAndRecv()
 			return err
 		}
 
